@@ -1,5 +1,7 @@
 import AmaranthVerif.Model.DerivedBuild
 import AmaranthVerif.Proofs.Lowering
+import AmaranthVerif.Proofs.ShapeCast
+import AmaranthVerif.Proofs.TbLemmas
 
 /-! # The derived operators mean what Python means by them (for all operands) -/
 
@@ -346,6 +348,185 @@ theorem replicate_spec (a : Expr) (ha : a.wf ctx = true) (k : Nat) :
     simp only [mkReplicate, denote, hw, ubits]
     rw [Int.emod_eq_of_lt sr.1 sr.2, h3]; rfl
 
+/-! ### `matches` -/
+
+theorem pyAnd_comm (x y : Int) : pyAnd x y = pyAnd y x := by
+  cases x <;> cases y <;> simp only [pyAnd, Nat.and_comm, Nat.or_comm]
+
+theorem constExpr_wf (n : Int) : (Expr.const n (constShape n)).wf ctx = true := by
+  simp only [Expr.wf, Bool.and_eq_true, decide_eq_true_eq]
+  exact ⟨constShape_WF n, constShape_contains n⟩
+
+/-- does the value match one (normalised) pattern -/
+def matchesM (v : Int) : MPat → Bool
+  | .bits b => b.matchesSpec v
+  | .int k => decide (v = k)
+
+/-- a normalised pattern: strings have the match value's width -/
+def MPat.okFor (s : Shape) : MPat → Prop
+  | .bits b => b.length = s.width
+  | .int _ => True
+
+theorem normPats_spec (s : Shape) (v : Int) : ∀ (ps ms : List MPat), normPats s ps = some ms →
+    (∀ m ∈ ms, m.okFor s) ∧
+    ps.any (fun p => match p with
+      | .bits b => b.matchesSpec v
+      | .int k => decide (s.contains k) && decide (v = k)) = ms.any (matchesM v) := by
+  intro ps
+  induction ps with
+  | nil => intro ms h; simp only [normPats, Option.some.injEq] at h; subst h; simp
+  | cons p ps ih =>
+    intro ms h
+    cases p with
+    | bits b =>
+      simp only [normPats] at h
+      split at h
+      · rename_i hl
+        cases hn : normPats s ps with
+        | none => rw [hn] at h; simp at h
+        | some ms' =>
+          rw [hn] at h; simp only [Option.map_some, Option.some.injEq] at h; subst h
+          obtain ⟨h1, h2⟩ := ih ms' hn
+          refine ⟨?_, ?_⟩
+          · intro m hm
+            rcases List.mem_cons.mp hm with rfl | hm
+            · exact hl
+            · exact h1 m hm
+          · simp only [List.any_cons, h2, matchesM]
+      · simp at h
+    | int k =>
+      simp only [normPats] at h
+      split at h
+      · rename_i hc
+        cases hn : normPats s ps with
+        | none => rw [hn] at h; simp at h
+        | some ms' =>
+          rw [hn] at h; simp only [Option.map_some, Option.some.injEq] at h; subst h
+          obtain ⟨h1, h2⟩ := ih ms' hn
+          refine ⟨?_, ?_⟩
+          · intro m hm
+            rcases List.mem_cons.mp hm with rfl | hm
+            · trivial
+            · exact h1 m hm
+          · simp only [List.any_cons, h2, matchesM, hc, decide_true, Bool.true_and]
+      · rename_i hc
+        obtain ⟨h1, h2⟩ := ih ms h
+        exact ⟨h1, by simp only [List.any_cons, h2, hc, decide_false, Bool.false_and, Bool.false_or]⟩
+
+include hok in
+theorem match1_spec (a : Expr) (ha : a.wf ctx = true) (m : MPat) (hm : m.okFor (shapeOf ctx a)) :
+    (mkMatch1 a m).wf ctx = true ∧ shapeOf ctx (mkMatch1 a m) = ⟨1, false⟩ ∧
+    denote ctx env (mkMatch1 a m) = if matchesM (denote ctx env a) m then 1 else 0 := by
+  cases m with
+  | int k =>
+    have c1 := constExpr_wf ctx k
+    simp only [Expr.wf] at c1
+    refine ⟨by simp only [mkMatch1, Expr.wf, ha, c1, Bool.and_true, Bool.true_and], by simp [mkMatch1, shapeOf], ?_⟩
+    simp only [mkMatch1, denote, matchesM, decide_eq_true_eq]
+    by_cases h : denote ctx env a = k <;> simp [h]
+  | bits b =>
+    have hl : b.length = widthOf ctx a := hm
+    have c1 := constExpr_wf ctx (b.maskNat : Int)
+    have c2 := constExpr_wf ctx (b.valueNat : Int)
+    simp only [Expr.wf] at c1 c2
+    refine ⟨by simp only [mkMatch1, Expr.wf, ha, c1, c2, Bool.and_true, Bool.true_and], by simp [mkMatch1, shapeOf], ?_⟩
+    simp only [mkMatch1, denote, matchesM]
+    have hp : [b].all (fun p => p.length == widthOf ctx a) = true := by simp [hl]
+    have e := matchesAny_emod [b] (widthOf ctx a) hp (denote ctx env a)
+    rw [matchesAny_eq [b] (widthOf ctx a) hp (denote ctx env a) (denote ctx env a) rfl] at e
+    simp only [matchesAny, List.any_cons, List.any_nil, Bool.or_false] at e
+    have hc := pyAnd_comm (denote ctx env a) (↑b.maskNat)
+    by_cases h : pyAnd (↑b.maskNat) (denote ctx env a) = ↑b.valueNat
+    · have hb : b.matchesSpec (denote ctx env a) = true := by rw [← e]; simp [h]
+      simp [hc, h, hb]
+    · have hb : b.matchesSpec (denote ctx env a) = false := by
+        rw [← e]; simp; exact fun h' => h h'.symm
+      simp [hc, h, hb]
+
+include hok in
+/-- a concatenation is zero exactly when all its parts (read as bit patterns) are -/
+theorem catList_zero : ∀ (es : List Expr), (∀ e ∈ es, e.wf ctx = true) →
+    (catList es).wf ctx = true ∧
+    (denote ctx env (catList es) = 0 ↔ ∀ e ∈ es, denote ctx env e % 2 ^ widthOf ctx e = 0) := by
+  intro es
+  induction es with
+  | nil => intro _; exact ⟨nil_wf ctx, by simp [catList, Expr.nil, denote]⟩
+  | cons e es ih =>
+    intro h
+    have he := h e (List.mem_cons_self ..)
+    obtain ⟨hwf, hz⟩ := ih (fun x hx => h x (List.mem_cons_of_mem _ hx))
+    refine ⟨by simp [catList, Expr.wf, he, hwf], ?_⟩
+    have sr := sound ctx env hok _ hwf
+    have hr := sr.rng
+    have hsh : shapeOf ctx (catList es) = ⟨widthOf ctx (catList es), false⟩ := by
+      cases es <;> simp [catList, Expr.nil, shapeOf, widthOf, Shape.u]
+    rw [hsh, Shape.contains_u] at hr
+    simp only [catList, denote, List.mem_cons, forall_eq_or_imp]
+    rw [Int.emod_eq_of_lt hr.1 hr.2, ← hz]
+    have p1 := two_pow_pos' (widthOf ctx e)
+    have a0 := Int.emod_nonneg (denote ctx env e) (Int.ne_of_gt p1)
+    have m0 : 0 ≤ 2 ^ widthOf ctx e * denote ctx env (catList es) := Int.mul_nonneg (Int.le_of_lt p1) hr.1
+    constructor
+    · intro hs
+      have h1 : denote ctx env e % 2 ^ widthOf ctx e = 0 := by omega
+      have h2 : 2 ^ widthOf ctx e * denote ctx env (catList es) = 0 := by omega
+      rcases Int.mul_eq_zero.mp h2 with h3 | h3
+      · omega
+      · exact ⟨h1, h3⟩
+    · rintro ⟨h1, h2⟩
+      rw [h1, h2]; simp
+
+include hok in
+theorem matches_spec (a : Expr) (ha : a.wf ctx = true) (ps : List MPat) (e : Expr)
+    (h : mkMatches ctx a ps = some e) :
+    e.wf ctx = true ∧ shapeOf ctx e = ⟨1, false⟩ ∧
+    denote ctx env e = if ps.any (fun p => match p with
+      | .bits b => b.matchesSpec (denote ctx env a)
+      | .int k => decide ((shapeOf ctx a).contains k) && decide (denote ctx env a = k)) then 1 else 0 := by
+  unfold mkMatches at h
+  cases hn : normPats (shapeOf ctx a) ps with
+  | none => rw [hn] at h; simp at h
+  | some ms =>
+    rw [hn] at h
+    simp only [Option.map_some, Option.some.injEq] at h
+    obtain ⟨hok', hany⟩ := normPats_spec (shapeOf ctx a) (denote ctx env a) ps ms hn
+    rw [hany]
+    match ms, h, hok' with
+    | [], h, _ =>
+      subst h
+      exact ⟨by simp [Expr.wf, Shape.WF, Shape.contains, Shape.lo, Shape.hi], rfl, by simp [denote]⟩
+    | [m], h, hok' =>
+      subst h
+      obtain ⟨h1, h2, h3⟩ := match1_spec ctx env hok a ha m (hok' m (by simp))
+      exact ⟨h1, h2, by rw [h3]; simp⟩
+    | m1 :: m2 :: ms, h, hok' =>
+      subst h
+      have hall : ∀ x ∈ (m1 :: m2 :: ms).map (mkMatch1 a), x.wf ctx = true := by
+        intro x hx
+        obtain ⟨m, hm, rfl⟩ := List.mem_map.mp hx
+        exact (match1_spec ctx env hok a ha m (hok' m hm)).1
+      obtain ⟨hwf, hz⟩ := catList_zero ctx env hok _ hall
+      refine ⟨by simp only [Expr.wf, hwf, Bool.and_true], by simp [shapeOf], ?_⟩
+      simp only [denote]
+      by_cases hany' : (m1 :: m2 :: ms).any (matchesM (denote ctx env a)) = true
+      · rw [if_pos hany', if_neg]
+        intro hzero
+        obtain ⟨m, hm, hmm⟩ := List.any_eq_true.mp hany'
+        have := (hz.mp hzero) (mkMatch1 a m) (List.mem_map.mpr ⟨m, hm, rfl⟩)
+        obtain ⟨_, h2, h3⟩ := match1_spec ctx env hok a ha m (hok' m hm)
+        rw [h3, hmm] at this
+        simp [widthOf, h2] at this
+      · rw [if_neg hany', if_pos]
+        apply hz.mpr
+        intro x hx
+        obtain ⟨m, hm, rfl⟩ := List.mem_map.mp hx
+        obtain ⟨_, h2, h3⟩ := match1_spec ctx env hok a ha m (hok' m hm)
+        have hf : matchesM (denote ctx env a) m = false := by
+          cases hv : matchesM (denote ctx env a) m with
+          | false => rfl
+          | true => exact absurd (List.any_eq_true.mpr ⟨m, hm, hv⟩) hany'
+        rw [h3, hf]; simp
+
 theorem Shape.unify_comm (a b : Shape) : Shape.unify a b = Shape.unify b a := by
   obtain ⟨wa, sa⟩ := a; obtain ⟨wb, sb⟩ := b
   cases sa <;> cases sb <;> simp [Shape.unify, Nat.max_comm]
@@ -437,6 +618,14 @@ theorem derived_build_spec (op : DOp) (args : List Expr) (e : Expr) (h : mkDeriv
       refine ⟨h1, ?_⟩
       simp only [List.map, derived, h2, h3, Shape.unify_comm (shapeOf ctx v0)]
       congr 2; split <;> simp_all
+  case «matches» ps =>
+    match args, h, hwf with
+    | [a], h, hwf =>
+      simp only [mkDerived] at h
+      obtain ⟨h1, h2, h3⟩ := matches_spec ctx env hok a (hwf a (by simp)) ps e h
+      exact ⟨h1, by simp only [List.map, derived]; exact congrArg some (Prod.ext h2.symm h3.symm)⟩
+    | [], h, _ => simp [mkDerived] at h
+    | _ :: _ :: _, h, _ => simp [mkDerived] at h
   all_goals (exfalso; revert h; cases args <;> simp [mkDerived])
 
 end
